@@ -266,6 +266,47 @@ func c17Families() []c17Family {
 	truncated := func(in func(int) string) func(int) string {
 		return func(n int) string { s := in(n); return s[:len(s)-1] + "+" }
 	}
+	// a grammar OBJECT with a past: postfix -> primary '!' / primary '?' / primary (ordered Choice, primary memoized)
+	// that has already parsed 600 inputs in which the first alternative always succeeds (the cache of primary is filled
+	// and never read); the measured inputs have no suffix, so every alternative asks primary again. What a parser object
+	// has seen before must not change the work it does now.
+	usedPostfix := func() parsley.Parser {
+		var postfix parser.Func
+		primary := combinator.Memoize(combinator.Choice(seq(r('('), &postfix, r(')')), r('a')))
+		postfix = combinator.Choice(seq(primary, r('!')), seq(primary, r('?')), primary)
+		root := combinator.Sentence(&postfix)
+		warm := "a!"
+		for i := 0; i < 8; i++ {
+			warm = "(" + warm + ")!"
+		}
+		for i := 0; i < 600; i++ {
+			fs, _, rd, _ := place(placements[0], "f", []byte(warm))
+			if _, err := parsley.Evaluate(parsley.NewContext(fs, rd), root); err != nil {
+				panic("C17 harness: warm-up input rejected: " + err.Error())
+			}
+		}
+		return root
+	}
+	inNested := func(n int) string {
+		d := n / 2
+		return strings.Repeat("(", d) + "a" + strings.Repeat(")", d)
+	}
+	fams = append(fams, c17Family{scale: 0.3, name: "postfix operators behind an ordered Choice over a memoized operand, grammar object with 600 earlier parses", build: usedPostfix, input: inNested, check: anyValue})
+	// inputs that END where an operand is still expected: the left-recursive rules are asked at the end-of-input position
+	lastOperandMissing := func(in func(int) string) func(int) string {
+		return func(n int) string { s := in(n); return s[:len(s)-1] }
+	}
+	fams = append(fams, c17Family{reject: true, name: "arithmetic, operator pattern +* with its last operand missing (rejected at end of input)", build: arith, input: lastOperandMissing(chain("+*")), check: anyValue})
+	fams = append(fams, c17Family{reject: true, name: "precedence ladder, chain with its last operand missing (rejected at end of input)", build: ladder, input: lastOperandMissing(inLadderChain), check: anyValue})
+	// a list of statements, each closed by ';': after the last one the repetition tries another statement at the end of
+	// input, where the left-recursive expression rules must fail in bounded work
+	stmts := func() parsley.Parser {
+		var e parser.Func
+		e = combinator.Memoize(combinator.Any(seq(&e, r('+'), terminal.Integer(nil)), terminal.Integer(nil)))
+		return combinator.Sentence(combinator.Many(seq(&e, r(';'))).Bind(concatInterp))
+	}
+	inStmts := func(n int) string { return strings.Repeat("1+2;", (n+3)/4) }
+	fams = append(fams, c17Family{name: "statements E; E; ... with a left-recursive E (the repetition asks for another statement at end of input)", build: stmts, input: inStmts, check: anyValue})
 	fams = append(fams, c17Family{reject: true, name: "arithmetic, operator pattern +- with a wrong first byte (rejected)", build: arith, input: wrongFirst(chain("+-")), check: anyValue})
 	fams = append(fams, c17Family{reject: true, name: "arithmetic, operator pattern +* ending in a dangling operator (rejected)", build: arith, input: truncated(chain("+*")), check: anyValue})
 	fams = append(fams, c17Family{reject: true, name: "precedence ladder, chain with a wrong first byte (rejected)", build: ladder, input: wrongFirst(inLadderChain), check: anyValue})
